@@ -89,3 +89,28 @@ def run(ck, prog):
         ck.obligation("E3-metric", f"{nm}: non-negative", b.path, v[2] == "NN", site=site, detail=f"return value {v}{unk}",
                       expected="sign NN (non-negative or NaN) of the return place")
     ck.floor("E3-metric", 15)
+
+
+# ------------------------------------------------------------------ translation-invariant (difference) form
+_run_pre_difference = run
+DIFF_FNS = [
+    ("Euclidian::squared_distance", r"^math::distance::euclidian::Euclidian::squared_distance$", 1, 2),
+    ("Euclidian::distance", r"^<math::distance::euclidian::Euclidian as math::distance::Distance<std::vec::Vec<T>, T>>::distance$", 2, 3),
+    ("Manhattan::distance", r"^<math::distance::manhattan::Manhattan as math::distance::Distance<std::vec::Vec<T>, T>>::distance$", 2, 3),
+    ("Minkowski::distance", r"^<math::distance::minkowski::Minkowski as math::distance::Distance<std::vec::Vec<T>, T>>::distance$", 2, 3),
+    ("Mahalanobis::distance", r"^<math::distance::mahalanobis::Mahalanobis<T, M> as math::distance::Distance<std::vec::Vec<T>, T>>::distance$", 2, 3),
+]
+
+
+def run(ck, prog):
+    _run_pre_difference(ck, prog)
+    from sa import difference
+    difference.run_rule(ck, prog, DIFF_FNS)
+    ck.floor("E2f-difference", 5)
+
+
+EXPLANATION += (" Difference form (E2f-difference): Euclidean, Manhattan, Minkowski and Mahalanobis distances depend on their two vector arguments only through x - y - no "
+                "arithmetic node of the result (dot, norm, sum, product, power) is computed from one of the vectors alone. The "
+                "algebraically equal expansion |x|^2 + |y|^2 - 2 x.y cancels catastrophically for data with a large common offset "
+                "(distinct points at distance 0, K = 1 or K > 1, negative squared distances).")
+TECHNIQUE += "; difference-form provenance rule"
